@@ -207,6 +207,8 @@ from . import helpers
 
 from . import initial
 
+from . import casts
+
 OBLIGATIONS = [
     ('C06.O1', 'broadcast cursor', 'next_spectator_frame is written only by the broadcast (+1, after the sends of its frame, '
      'once per fetched frame); frames are fetched with confirmed_inputs(cursor) and sent only while cursor <= confirmed frame.', o1),
@@ -220,4 +222,5 @@ OBLIGATIONS = [
     ('C06.O6', 'same cut-off predicate on host and spectator (= C03.O2)', 'see C03.O2', c03.o2),
     ('C06.H', 'helpers the rules above rely on', 'the bodies of the helpers named by this property\'s rules compute what the rules assume (registry_counts, confirmed_input); see rules/helpers.py', helpers.bundle('registry_counts', 'confirmed_input')),
     ('C06.I', 'initial state', 'every constructor gives the fields this property\'s rules interpret (NULL_FRAME = none / nothing yet, 0 = first frame, latches open, typestate start) the value listed in tables/initial_state.json; every field compared with NULL_FRAME anywhere is listed; see rules/initial.py', initial.rule_for('C06')),
+    ('C06.C', 'lossy integer casts', 'every sign-changing cast (signed -> unsigned; NULL_FRAME is -1) and every narrowing cast to < 32 bits or from 128 bits in the crate is in range by a dominating guard, by the shape of its operand, or listed with a reason in tables/casts.json; see rules/casts.py', casts.rule),
 ]
